@@ -169,7 +169,7 @@ def generate(seed, tier, cfg):
         "perf_seed": st.workload.randrange(1 << 30) if has_perf else None,
         "programs": programs,
         "schedule": sched.gen_schedule(st.schedule, nclients, nsteps, policy),
-        "knobs": {"policy": policy, "reclimit": k.choice((1000, 1500, 3000)), "profile": profile, "chunk": k.choice((0, 0, 7, 16, 512)), "musical_beat": [i for i in range(nparts) if k.random() < 0.5], "high_staff_words": [i for i in range(nparts) if k.random() < 0.25], "unnumbered_groups": k.random() < 0.4},
+        "knobs": {"policy": policy, "reclimit": k.choice((1000, 1500, 3000)), "profile": profile, "chunk": k.choice((0, 0, 7, 16, 512)), "musical_beat": [i for i in range(nparts) if k.random() < 0.5], "high_staff_words": [i for i in range(nparts) if k.random() < 0.25], "unnumbered_groups": k.random() < 0.4, "custom_mbeats": k.random() < 0.5},
     }
 
 
@@ -301,7 +301,11 @@ class World(object):
         for i, p in enumerate(self.score.parts):
             if i in kn.get("musical_beat", ()):
                 try:
-                    p.use_musical_beat()
+                    if kn.get("custom_mbeats"):
+                        # a caller's own number of musical beats per signature (documented optional argument)
+                        p.use_musical_beat({"6/8": 3, "9/8": 1, "12/8": 2, "4/4": 2, "3/4": 1, "2/2": 1, "5/8": 1, "7/8": 1, "3/8": 3, "2/4": 1, "5/4": 1, "6/4": 3, "3/2": 1})
+                    else:
+                        p.use_musical_beat()
                 except Exception:
                     pass
         if kn.get("unnumbered_groups"):
